@@ -73,11 +73,11 @@ TOKENS: dict[str, list[str]] = {
     "i0": ["0"], "i1": ["1"], "i2": ["2", "7", "42"], "i_neg": ["-3", "-1"], "i_big": ["10**20", "2**64+1"],
     "i_huge": ["10**400", "10**1000"],
     "f0": ["0.0"], "f1": ["1.0"], "f_frac": ["1.5", "2.25"], "f_neg": ["-1.5", "-0.25"],
-    "f_nan": ["float('nan')"], "f_inf": ["float('inf')", "float('-inf')"],
+    "f_nan": ["float('nan')"], "f_inf": ["float('inf')", "float('-inf')"], "f_huge": ["1e18", "-1e18"],
     "s_empty": ["''"], "s_a": ["'abc'", "'x y'"], "s_int": ["'1'", "'42'"], "s_zero": ["'0'"], "s_frac": ["'1.5'", "'2.25'"],
     "s_cx1": ["'(1+0j)'"], "s_cxp": ["'(1+2j)'"], "s_path": ["'a/b'"], "s_re": ["'a+'"],
     "s_ratio": ["'1/2'", "'3/4'"], "s_badratio": ["'1/0'"], "s_cx": ["'1+2j'"],
-    "s_date": ["'2020-01-02'", "'1999-12-31'"], "s_time": ["'10:20:30'"], "s_dt": ["'2020-01-02T10:20:30'"],
+    "s_date": ["'2020-01-02'", "'1999-12-31'"], "s_time": ["'10:20:30'"], "s_dt": ["'2020-01-02T10:20:30'"], "s_fmt": ["'2020/01/02 10.20.30'"],
     "s_uuid": ["'12345678-1234-5678-1234-567812345678'"], "s_b64": ["'YWJj'", "'AAEC'"], "s_badb64": ["'a'", "'abcde'"],
     "s_nonascii": ["'\\u00e9'", "'\\u4f60\\u597d'"], "s_ip4": ["'127.0.0.1'", "'10.0.0.1'"], "s_badre": ["'('", "'a{99999999999999999999}'", "'[a'"],
     "d_huge": ["Decimal('1e28')", "Decimal('-3.5e40')"],
@@ -88,7 +88,7 @@ TOKENS: dict[str, list[str]] = {
     "f_secs": ["90.0", "172803.0"],
     "td": ["dtm.timedelta(seconds=90)", "dtm.timedelta(days=2, seconds=3)"], "td_frac": ["dtm.timedelta(seconds=1.5)", "dtm.timedelta(seconds=2.25)"],
     "td_neg": ["dtm.timedelta(seconds=-1.5)", "dtm.timedelta(seconds=-0.25)"],
-    "dt": ["dtm.datetime(2020, 1, 2, 10, 20, 30)"], "da": ["dtm.date(2020, 1, 2)", "dtm.date(1999, 12, 31)"], "ti": ["dtm.time(10, 20, 30)"],
+    "dt": ["dtm.datetime(2020, 1, 2, 10, 20, 30)"], "dt_utc": ["dtm.datetime(2020, 1, 2, 10, 20, 30, tzinfo=dtm.timezone.utc)", "dtm.datetime(1999, 12, 31, 23, 59, tzinfo=dtm.timezone.utc)"], "da": ["dtm.date(2020, 1, 2)", "dtm.date(1999, 12, 31)"], "ti": ["dtm.time(10, 20, 30)"],
     "uu": ["uuid.UUID('12345678-1234-5678-1234-567812345678')"], "pa": ["pathlib.Path('a/b')"],
     "ip": ["ipaddress.IPv4Address('127.0.0.1')", "ipaddress.IPv4Address('10.0.0.1')"], "pat": ["re.compile('a+')"],
     "s_ea": ["'ea'"], "i5": ["5"], "e_a": ["E.A"], "e_b": ["E.B"],
@@ -139,6 +139,18 @@ def _td_seconds(x):
     return dtm.timedelta(microseconds=round(us))
 
 
+def _num_only(f):
+    """'UNIX timestamp': an int or a float (what else the raw function takes is not decided by the documentation)"""
+    def g(x):
+        if type(x) not in (int, float):
+            raise TypeError
+        return f(x)
+    return g
+
+
+TS_FORMAT = "%Y/%m/%d %H.%M.%S"
+
+
 def _str_only(f):
     def g(x):
         if not isinstance(x, str):
@@ -159,6 +171,9 @@ CTORS: dict[str, Any] = {
     "IPv6Address": _str_only(ipaddress.IPv6Address), "IPv4Network": _str_only(ipaddress.IPv4Network), "IPv6Network": _str_only(ipaddress.IPv6Network),
     "IPv4Interface": _str_only(ipaddress.IPv4Interface), "IPv6Interface": _str_only(ipaddress.IPv6Interface),
     "id": lambda x: x,
+    # the configurable date providers: datetime_by_timestamp() [tz = UTC], date_by_timestamp(), datetime_by_format(fmt=TS_FORMAT)
+    "ts": _num_only(lambda x: dtm.datetime.fromtimestamp(x, tz=dtm.timezone.utc)), "dats": _num_only(lambda x: dtm.datetime.fromtimestamp(x, tz=dtm.timezone.utc).date()),
+    "fmt": _str_only(lambda x: dtm.datetime.strptime(x, TS_FORMAT)),
 }
 
 
@@ -175,6 +190,8 @@ DUMPS: dict[str, Any] = {
     "PurePath": lambda x: x.__fspath__(), "PurePosixPath": lambda x: x.__fspath__(), "PosixPath": lambda x: x.__fspath__(),
     "PureWindowsPath": lambda x: x.__fspath__(), "PathLike": lambda x: x.__fspath__(),
     "IPv6Address": str, "IPv4Network": str, "IPv6Network": str, "IPv4Interface": str, "IPv6Interface": str,
+    "datetime_ts": lambda x: x.timestamp(), "datetime_fmt": lambda x: x.strftime(TS_FORMAT),
+    "date_ts": lambda x: dtm.datetime(x.year, x.month, x.day, tzinfo=dtm.timezone.utc).timestamp(),
 }
 # python type (name) of the values of each scalar kind
 VALUE_PYTYPE = {"int": "int", "float": "float", "str": "str", "bool": "bool", "None": "NoneType", "Decimal": "Decimal",
@@ -183,14 +200,16 @@ VALUE_PYTYPE = {"int": "int", "float": "float", "str": "str", "bool": "bool", "N
                 "Path": "PosixPath", "Pattern": "Pattern",
                 "BytesIO": "BytesIO", "IObytes": "NonSeek", "LiteralString": "str", "ByteString": "bytes", "PurePath": "PurePosixPath", "PurePosixPath": "PurePosixPath", "PosixPath": "PosixPath",
                 "PureWindowsPath": "PureWindowsPath", "PathLike": "PosixPath", "IPv6Address": "IPv6Address", "IPv4Network": "IPv4Network",
-                "IPv6Network": "IPv6Network", "IPv4Interface": "IPv4Interface", "IPv6Interface": "IPv6Interface"}
+                "IPv6Network": "IPv6Network", "IPv4Interface": "IPv4Interface", "IPv6Interface": "IPv6Interface",
+                "datetime_ts": "datetime_aware", "datetime_fmt": "datetime", "date_ts": "date"}
 # which constructor (CTORS key) the loader of a scalar kind applies
 KIND_CTOR = {"int": "int", "float": "float", "str": "str", "bool": "bool", "Decimal": "Decimal", "Fraction": "Fraction",
              "complex": "complex", "None": "id", "Any": "id", "bytes": "b64", "bytearray": "b64ba", "date": "date", "time": "time",
              "datetime": "datetime", "timedelta": "timedelta", "UUID": "UUID", "Path": "Path", "IPv4Address": "IPv4Address",
              "Pattern": "re", "BytesIO": "b64bio", "IObytes": "b64bio", "object": "id", "LiteralString": "str", "ByteString": "b64", "PurePath": "PurePath", "PurePosixPath": "PurePosixPath",
              "PosixPath": "PosixPath", "PureWindowsPath": "PureWindowsPath", "PathLike": "Path", "IPv6Address": "IPv6Address",
-             "IPv4Network": "IPv4Network", "IPv6Network": "IPv6Network", "IPv4Interface": "IPv4Interface", "IPv6Interface": "IPv6Interface"}
+             "IPv4Network": "IPv4Network", "IPv6Network": "IPv6Network", "IPv4Interface": "IPv4Interface", "IPv6Interface": "IPv6Interface",
+             "datetime_ts": "ts", "datetime_fmt": "fmt", "date_ts": "dats"}
 
 
 def typed_same(a: Any, b: Any) -> bool:
@@ -260,6 +279,8 @@ def ctor_ok(ctor: str, value: Any) -> bool:
 
 
 def pytype(value: Any) -> str:
+    if isinstance(value, dtm.datetime) and value.tzinfo is not None:
+        return "datetime_aware"       # the values of datetime_by_timestamp(tz=UTC); a naive datetime is not one of them
     return type(value).__name__
 
 
